@@ -46,7 +46,7 @@ func Split(src string) (entries []string) {
 			class = RuneOther
 		}
 
-		if class == lastClass || (class == RuneDigit && (lastClass == RuneUpper || lastClass == RuneLower)) {
+		if len(runes) > 0 && (class == lastClass || (class == RuneDigit && (lastClass == RuneUpper || lastClass == RuneLower))) {
 			runes[len(runes)-1] = append(runes[len(runes)-1], r)
 			lastClass = class
 			continue
